@@ -2,6 +2,7 @@
   Props/C05.lean — C05: the protocol storage namespace is protected; every function has a bounded footprint.
 -/
 import Proofs.FrameFn
+import Proofs.SkvExact
 import Facts.Generated
 namespace C05
 open Esdt
@@ -114,8 +115,80 @@ theorem namespaces_protected (t : Bytes) :
     isAllowedToSaveUnderKey (nonceKeyPrefix ++ t) = false := by
   simp [isAllowedToSaveUnderKey, protectedPrefix, esdtKeyPrefix, roleKeyPrefix, nonceKeyPrefix, ascii]
 
--- FULL (remaining part, stated): "writes exactly the listed key/value pairs" (the resulting storage is the left fold of
--- `put` over the pairs).  The model's loop (`skvLoop`) is that fold with the gas guards; exactness is decided today by
--- the C05 oracle (diff = fold of the pairs) and by correspondence on the full diff (`skv_exact` not yet a theorem).
+/-! ### "… and writes exactly the listed key/value pairs" -/
+
+/-- spec: the (key, value) pairs a SaveKeyValue call lists, in order -/
+def pairsOf : List Bytes → List (Bytes × Bytes)
+  | k :: v :: rest => (k, v) :: pairsOf rest
+  | _ => []
+
+/-- spec: the value the list assigns to key `k` — that of the LAST pair naming `k`, if any pair does -/
+def assigned : List (Bytes × Bytes) → Bytes → Option Bytes
+  | [], _ => none
+  | (k', v) :: rest, k =>
+    match assigned rest k with
+    | some x => some x
+    | none => if k' = k then some v else none
+
+/-- spec: storage after writing the pairs in order (`put` with an empty value deletes the key) -/
+def writePairs (s : Store) (ps : List (Bytes × Bytes)) : Store := ps.foldl (fun s p => s.put p.1 p.2) s
+
+theorem putPairs_eq_writePairs : ∀ (l : List Bytes) (s : Store), putPairs s l = writePairs s (pairsOf l)
+  | [], s => rfl
+  | [_], s => rfl
+  | k :: v :: rest, s => by
+    simp only [putPairs, pairsOf, writePairs, List.foldl_cons]
+    exact putPairs_eq_writePairs rest (s.put k v)
+
+theorem writePairs_get (ps : List (Bytes × Bytes)) : ∀ (s : Store) (k : Bytes),
+    (writePairs s ps).get k = (assigned ps k).getD (s.get k) := by
+  induction ps with
+  | nil => intro s k; rfl
+  | cons p ps ih =>
+    intro s k
+    obtain ⟨k', v⟩ := p
+    have h := ih (s.put k' v) k
+    simp only [writePairs, List.foldl_cons] at h ⊢
+    rw [h, Store.get_put]
+    simp only [assigned]
+    cases assigned ps k with
+    | some x => rfl
+    | none => by_cases hk : k' = k <;> simp [hk]
+
+/-- FULL (part 1c): a successful SaveKeyValue writes exactly the listed key/value pairs: afterwards every key of the
+    caller's storage holds the value of the LAST pair that names it (an empty value: the key is gone), and every key no
+    pair names holds what it held before. (Other accounts and the non-storage fields: `skv_only_own_storage`,
+    `bounded_footprint`.) The implementation skips the trie write of a pair whose value is already stored and stops at
+    gas guards in between; neither shows in the result. -/
+theorem skv_writes_exactly_the_pairs (env : Env) (c : Call) (ctx ctx' : Ctx) (out : VMOutput)
+    (h : exec env .saveKeyValue c ctx = .ok (out, ctx')) (k : Bytes) :
+    (ctx'.accts.get c.caller).store.get k =
+      (assigned (pairsOf c.args) k).getD ((ctx.accts.get c.caller).store.get k) := by
+  have := (saveKeyValue_exact env c ctx).elim h k
+  rw [putPairs_eq_writePairs, writePairs_get] at this
+  exact this
+
+/-- the same as one storage: the left fold of `put` over the pairs -/
+theorem skv_result_is_fold (env : Env) (c : Call) (ctx ctx' : Ctx) (out : VMOutput)
+    (h : exec env .saveKeyValue c ctx = .ok (out, ctx')) (k : Bytes) :
+    (ctx'.accts.get c.caller).store.get k = (writePairs (ctx.accts.get c.caller).store (pairsOf c.args)).get k := by
+  have := (saveKeyValue_exact env c ctx).elim h k
+  rwa [putPairs_eq_writePairs] at this
+
+/-- non-vacuity, kernel-evaluated: one key listed twice — first a new value, then the value it had before the call —
+    ends with the LATER pair's value; a key written and then deleted in the same call is gone; an untouched key stays -/
+def xvAlice : Bytes := List.replicate 32 1
+def xvEnv : Env := { self := 0, nshards := 1, payable := fun _ => .yes, dns := [], nameChange := false, gas := {}, active := true }
+def xvK : Bytes := [107]
+def xvF : Bytes := [102]
+def xvZ : Bytes := [122]
+def xvCtx : Ctx := { accts := [(xvAlice, { store := [(xvK, [111, 108, 100]), (xvZ, [1, 2])] })] }
+def xvCall : Call :=
+  { fn := fnSaveKeyValue, caller := xvAlice, rcv := xvAlice, gas := 1000000,
+    args := [xvK, [110, 101, 119], xvK, [111, 108, 100], xvF, [5], xvF, []] }
+example : (match exec xvEnv .saveKeyValue xvCall xvCtx with
+    | .ok (_, c') => c'.accts.read xvAlice xvK == [111, 108, 100] && c'.accts.read xvAlice xvF == [] &&
+        c'.accts.read xvAlice xvZ == [1, 2]
+    | _ => false) = true := by decide +kernel
 
 end C05
